@@ -257,6 +257,19 @@ func (c *TermCtx) Eq(a, b *Term) *Term {
 	if a.IsConst() && b.op == OIte {
 		return c.Eq(b, a)
 	}
+	if a.op == OZExt && b.op == OZExt && a.args[0].sort == b.args[0].sort {
+		return c.Eq(a.args[0], b.args[0])
+	}
+	if a.op == OZExt && b.IsConst() {
+		iw := a.args[0].sort
+		if b.val > mask(iw) {
+			return c.Bool(false)
+		}
+		return c.Eq(a.args[0], c.BV(int(iw), b.val))
+	}
+	if b.op == OZExt && a.IsConst() {
+		return c.Eq(b, a)
+	}
 	if a.id > b.id {
 		a, b = b, a
 	}
@@ -385,13 +398,7 @@ func (c *TermCtx) Bin(op Op, a, b *Term) *Term {
 		if b.IsConst() && b.val == 0 {
 			return a
 		}
-		// (x + k1) + k2
-		if b.IsConst() && a.op == OAdd && a.args[1].IsConst() {
-			return c.Bin(OAdd, a.args[0], c.BV(int(w), a.args[1].val+b.val))
-		}
-		if a.IsConst() {
-			a, b = b, a
-		}
+		return c.linear(op, a, b)
 	case OSub:
 		if b.IsConst() && b.val == 0 {
 			return a
@@ -399,9 +406,7 @@ func (c *TermCtx) Bin(op Op, a, b *Term) *Term {
 		if a == b {
 			return c.BV(int(w), 0)
 		}
-		if b.IsConst() {
-			return c.Bin(OAdd, a, c.BV(int(w), -b.val))
-		}
+		return c.linear(op, a, b)
 	case OMul:
 		if a.IsConst() {
 			a, b = b, a
@@ -459,9 +464,132 @@ func (c *TermCtx) Bin(op Op, a, b *Term) *Term {
 	return c.mk(op, w, []*Term{a, b}, 0, "", 0, 0)
 }
 
+// ---- canonical linear form of bvadd/bvsub/bvneg/(bvmul by constant) trees ----
+
+type linForm struct {
+	atoms map[*Term]uint64
+	k     uint64
+}
+
+func (c *TermCtx) linAdd(lf *linForm, t *Term, coef uint64, depth int) {
+	m := mask(t.sort)
+	coef &= m
+	if coef == 0 {
+		return
+	}
+	if t.IsConst() {
+		lf.k = (lf.k + coef*t.val) & m
+		return
+	}
+	if depth < 24 && len(lf.atoms) < 64 {
+		switch t.op {
+		case OAdd:
+			c.linAdd(lf, t.args[0], coef, depth+1)
+			c.linAdd(lf, t.args[1], coef, depth+1)
+			return
+		case OSub:
+			c.linAdd(lf, t.args[0], coef, depth+1)
+			c.linAdd(lf, t.args[1], -coef, depth+1)
+			return
+		case ONeg:
+			c.linAdd(lf, t.args[0], -coef, depth+1)
+			return
+		case OMul:
+			if t.args[1].IsConst() {
+				c.linAdd(lf, t.args[0], coef*t.args[1].val, depth+1)
+				return
+			}
+		}
+	}
+	lf.atoms[t] = (lf.atoms[t] + coef) & m
+	if lf.atoms[t] == 0 {
+		delete(lf.atoms, t)
+	}
+}
+
+func (c *TermCtx) linear(op Op, a, b *Term) *Term {
+	w := a.sort
+	m := mask(w)
+	lf := &linForm{atoms: map[*Term]uint64{}}
+	c.linAdd(lf, a, 1, 0)
+	if op == OAdd {
+		c.linAdd(lf, b, 1, 0)
+	} else {
+		c.linAdd(lf, b, m, 0)
+	}
+	atoms := make([]*Term, 0, len(lf.atoms))
+	for t := range lf.atoms {
+		atoms = append(atoms, t)
+	}
+	// canonical order: positive unit coefficients first, then by id
+	for i := 1; i < len(atoms); i++ {
+		for j := i; j > 0; j-- {
+			x, y := atoms[j-1], atoms[j]
+			px, py := lf.atoms[x] == 1, lf.atoms[y] == 1
+			if (py && !px) || (px == py && y.id < x.id) {
+				atoms[j-1], atoms[j] = y, x
+			} else {
+				break
+			}
+		}
+	}
+	var acc *Term
+	for _, t := range atoms {
+		co := lf.atoms[t]
+		switch {
+		case acc == nil && co == 1:
+			acc = t
+		case acc == nil && co == m:
+			acc = c.mk(ONeg, w, []*Term{t}, 0, "", 0, 0)
+		case acc == nil:
+			acc = c.mk(OMul, w, []*Term{t, c.BV(int(w), co)}, 0, "", 0, 0)
+		case co == 1:
+			acc = c.mk(OAdd, w, []*Term{acc, t}, 0, "", 0, 0)
+		case co == m:
+			acc = c.mk(OSub, w, []*Term{acc, t}, 0, "", 0, 0)
+		default:
+			acc = c.mk(OAdd, w, []*Term{acc, c.mk(OMul, w, []*Term{t, c.BV(int(w), co)}, 0, "", 0, 0)}, 0, "", 0, 0)
+		}
+	}
+	if acc == nil {
+		return c.BV(int(w), lf.k)
+	}
+	if lf.k != 0 {
+		acc = c.mk(OAdd, w, []*Term{acc, c.BV(int(w), lf.k)}, 0, "", 0, 0)
+	}
+	return acc
+}
+
+// narrow comparisons of zero-extended operands
+func (c *TermCtx) narrowZ(a, b *Term) (*Term, *Term, bool, *Term) {
+	if a.op == OZExt && b.op == OZExt && a.args[0].sort == b.args[0].sort {
+		return a.args[0], b.args[0], true, nil
+	}
+	return a, b, false, nil
+}
+
 func (c *TermCtx) Cmp(op Op, a, b *Term) *Term {
 	if a.sort != b.sort {
 		panic(fmt.Sprintf("Cmp sort mismatch %v %v", a.sort, b.sort))
+	}
+	if op == OULT || op == OULE {
+		if a.op == OZExt && b.op == OZExt && a.args[0].sort == b.args[0].sort {
+			return c.Cmp(op, a.args[0], b.args[0])
+		}
+		if a.op == OZExt && b.IsConst() {
+			iw := a.args[0].sort
+			if b.val > mask(iw) {
+				return c.Bool(true)
+			}
+			return c.Cmp(op, a.args[0], c.BV(int(iw), b.val))
+		}
+		if b.op == OZExt && a.IsConst() {
+			iw := b.args[0].sort
+			if a.val > mask(iw) {
+				return c.Bool(false)
+			}
+			return c.Cmp(op, c.BV(int(iw), a.val), b.args[0])
+		}
 	}
 	w := a.sort
 	if a.IsConst() && b.IsConst() {
@@ -547,6 +675,18 @@ func (c *TermCtx) Extract(hi, lo int, a *Term) *Term {
 	case OBAnd, OBOr, OBXor:
 		if a.args[1].IsConst() && nw <= 8 {
 			return c.Bin(a.op, c.Extract(hi, lo, a.args[0]), c.Extract(hi, lo, a.args[1]))
+		}
+	case OAdd, OSub:
+		if lo == 0 {
+			return c.Bin(a.op, c.Extract(hi, 0, a.args[0]), c.Extract(hi, 0, a.args[1]))
+		}
+	case ONeg:
+		if lo == 0 {
+			return c.Neg(c.Extract(hi, 0, a.args[0]))
+		}
+	case OMul:
+		if lo == 0 && a.args[1].IsConst() {
+			return c.Bin(OMul, c.Extract(hi, 0, a.args[0]), c.Extract(hi, 0, a.args[1]))
 		}
 	}
 	return c.mk(OExtract, Sort(nw), []*Term{a}, 0, "", hi, lo)
